@@ -36,6 +36,14 @@ class Inconclusive(Exception):
 _replay_built = {}
 
 
+def tier_param(name, default):
+    """bound of a lane; VERIF_PARAM_<name> (JSON) overrides it for timing experiments only"""
+    v = os.environ.get('VERIF_PARAM_' + name)
+    if v is None: return default
+    r = json.loads(v)
+    return tuple(r) if isinstance(default, tuple) else r
+
+
 def build_replay(profile='dev'):
     if profile in _replay_built:
         return _replay_built[profile]
